@@ -29,7 +29,10 @@ READER_ALLOW = {
 }
 
 CONTAINER_FNS = {"std::slice::into_vec", "alloc::slice::into_vec", "std::boxed::Box::new", "std::sync::Arc::new", "std::vec::from_elem",
-                 "std::boxed::box_new", "std::boxed::box_assume_init_into_vec_unsafe", "std::mem::take", "std::mem::replace"}
+                 "std::boxed::box_new", "std::boxed::box_assume_init_into_vec_unsafe", "std::mem::take", "std::mem::replace",
+                 # single-argument adaptors that keep *the* contained value (unlike or/xor/and/filter/zip/max, which may drop it)
+                 "std::option::Option::transpose", "std::result::Result::transpose", "std::result::Result::ok", "std::option::Option::ok_or",
+                 "std::option::Option::ok_or_else", "std::option::Option::take", "std::option::Option::iter", "std::option::Option::into_iter"}
 PUSHERS = {"std::vec::Vec::push", "std::vec::Vec::append", "std::vec::Vec::extend_from_slice", "std::iter::Extend::extend",
            "<std::vec::Vec as std::iter::Extend>::extend", "std::vec::Vec::insert"}
 
@@ -263,6 +266,53 @@ def run(ctx, rep, prop="C20"):
                        "the &InputFile parameter (an opened, mapped file) is kept in every non-error value returned" if ok else
                        "the &InputFile parameter is dropped: the file it names never reaches loaded_files", b.file, b.line)
     rep.floor("registry", "pass-through functions", n_pass, 3)
+    # producers: functions that hand the freshly allocated &InputFile back to their caller instead of registering it.
+    # Every caller then owes the registration, for *each* reference it obtains (by identity: `a.or(b)`, `a.xor(b)`, `max` ... keep one).
+    import re as _re
+    REF = _re.compile(r"&(\'\w+ )?(mut )?libwild::input_data::InputFile")
+    producers = set()
+    for b, bi, t in allocs:
+        if "LoadedFileState" in b.locals[0] or not REF.search(b.locals[0]):
+            continue
+        rs = R.returns_contain(b, {t["dest"][0]})
+        if rs and all(ok and "holds the reference" in why for _rb, ok, why in rs):
+            producers.add(b.key)
+    n_owed = 0
+    for pk in sorted(producers):
+        for cb, cbi, ct in P.callers_of(lambda k, pk=pk: k == pk):
+            owner, seeds = cb, {ct["dest"][0]}
+            if cb.d["kind"] == "Closure":
+                # the closure must return what it obtained; the body that applies the closure then owns the result
+                if ct["dest"][0] == 0 and not ct["dest"][1]:
+                    okc = True      # tail call: what the producer returned is what the closure returns
+                else:
+                    rs = R.returns_contain(cb, seeds)
+                    okc = bool(rs) and all(ok for _rb, ok, _w in rs)
+                parent_key = cb.key.split("::{closure")[0]
+                parent = F.body(parent_key)
+                if not okc or parent is None:
+                    rep.ob("registry", f"producer-closure:{stable(cb.key)}", False, f"the closure calling {stable(pk)} does not return the &InputFile it obtained", cb.file, ct["l"])
+                    continue
+                pflow = P.flow(parent)
+                seeds = set()
+                for bi2, t2 in pflow.calls():
+                    for a in t2["args"]:
+                        if any(o[0] == "agg" and norm_path(o[1]) == cb.key for o in pflow.origins(a)):
+                            seeds.add(t2["dest"][0])
+                owner = parent
+                if not seeds:
+                    rep.ob("registry", f"producer-closure:{stable(cb.key)}", False, "could not find where the closure that obtains the &InputFile is applied", cb.file, ct["l"])
+                    continue
+            for seed in sorted(seeds):
+                n_owed += 1
+                rs = R.returns_contain(owner, {seed})
+                bad = [why for _rb, ok, why in rs if not ok]
+                nm = owner.local_name(seed) or f"_{seed}"
+                rep.ob("registry", f"owed:{stable(owner.key)}:{stable(pk).split('::')[-1]}#{sorted(seeds).index(seed)}", bool(rs) and not bad,
+                       (f"the &InputFile obtained from {stable(pk).split('::')[-1]} reaches loaded_files (or the caller's own result) on every non-error path" if rs and not bad else
+                        f"a file opened and mapped through {stable(pk).split('::')[-1]} is not registered on some path ({'; '.join(sorted(set(bad))[:2]) or 'no non-error return'}): it is neither re-checked for modification nor listed in the dependency file"),
+                       owner.file, ct["l"])
+    rep.note(f"{len(producers)} function(s) return a freshly allocated &InputFile to their caller; {n_owed} obligation(s) on callers")
 
     # ---- extract -------------------------------------------------------------------------------------
     ex = F.body("libwild::input_data::FileLoader::extract_file")
